@@ -351,6 +351,23 @@ pub fn run(ctx: &'static Ctx) -> (&'static str, Value, Vec<&'static str>) {
             }
         }
     }
+    // block type letter + name taken from every literal in the source under test (first bytes)
+    {
+        let mut seen = std::collections::BTreeSet::new();
+        for lit in source_dictionary() {
+            for start in 0..lit.len().min(3) {
+                let n = [lit[start], *lit.get(start + 1).unwrap_or(&b' '), *lit.get(start + 2).unwrap_or(&b' ')];
+                if !seen.insert(n) {
+                    continue;
+                }
+                for (g, ws) in [(0u16, 8u8), (3, 8), (100, 16)] {
+                    let exact = 32 + 4;
+                    ext.push(t31_extreme(1, &[exact], &n, g, ws, g as usize * (ws as usize / 8)));
+                    ext.push(t31_extreme(2, &[exact, exact], &n, g, ws, 4));
+                }
+            }
+        }
+    }
     let sc: Stats = ext
         .par_iter()
         .enumerate()
